@@ -3,6 +3,7 @@
 // API-visible events to a shared-memory log. Judges nothing.
 #include "dvm_common.h"
 #include <Block.h>
+#include <poll.h>
 #if defined(__has_feature)
 #if __has_feature(address_sanitizer)
 #include <sanitizer/asan_interface.h>
@@ -79,7 +80,9 @@ static char KEYS[NKEYS + 1];          // KEYS[NKEYS] is the tag key carried by e
 static _Atomic int pending;           // submitted items that have not finished
 static _Atomic int all_done;
 static _Atomic int finalizers_expected, finalizers_seen;
-static int use_main_queue, opt_payload, opt_finalizers;
+static int use_main_queue, opt_payload, opt_finalizers, opt_mainloop;
+extern int _dispatch_get_main_queue_handle_4CF(void);
+extern void _dispatch_main_queue_callback_4CF(void *msg);
 static int trap_q = -1, trap_on = -1, trap_kind;
 
 // plain (non-atomic) payloads for the memory-visibility clauses of C05
@@ -455,6 +458,7 @@ static int load_program(const char *path) {
 				if (!strcmp(k, "threads")) nthreads = (int)v;
 				else if (!strcmp(k, "payload")) opt_payload = (int)v;
 				else if (!strcmp(k, "finalizers")) opt_finalizers = (int)v;
+				else if (!strcmp(k, "mainloop")) opt_mainloop = (int)v;
 				else if (!strcmp(k, "trapq")) trap_q = (int)v;
 				else if (!strcmp(k, "trapon")) trap_on = (int)v;
 				else if (!strcmp(k, "trapkind")) trap_kind = (int)v;
@@ -638,6 +642,18 @@ int main(int argc, char **argv) {
 	if (getenv("DVM_TRACE")) { int qi = atoi(getenv("DVM_TRACE")); trace_word = (volatile uint64_t *)((char *)Q[qi] + 56); trace_last = *trace_word; }
 	pthread_t co;
 	pthread_create(&co, 0, coordinator, 0);
+	if (use_main_queue && opt_mainloop) {
+		// run-loop mode (what CoreFoundation's CFRunLoop does): the main queue stays bound to this thread, which services it whenever the
+		// queue's eventfd handle becomes readable. The coordinator ends the process.
+		int fd = _dispatch_get_main_queue_handle_4CF();
+		my_tid = 62;
+		for (;;) {
+			struct pollfd pf = { .fd = fd, .events = POLLIN };
+			if (poll(&pf, 1, -1) < 0 && errno != EINTR) break;
+			uint64_t v; if (read(fd, &v, sizeof v) < 0 && errno != EAGAIN && errno != EINTR) break;
+			_dispatch_main_queue_callback_4CF(NULL);
+		}
+	}
 	if (use_main_queue) dispatch_main();
 	pthread_join(co, 0);
 	return 0;
